@@ -46,24 +46,24 @@ def table(kind, M, S):
     return rows
 
 
-def comm(D, h, N, real_t, kind, ncomp, sfrac=0.5):
+def comm(D, h, N, real_t, kind, ncomp, sfrac=0.5, width=2):
     """sfrac: coordinate of the centre of cell 0 in units of h (eul_grid_coord_shift = sfrac * h; the simulators use 1/2)."""
-    key = (D, h, N, real_t, kind, ncomp, sfrac)
+    key = (D, h, N, real_t, kind, ncomp, sfrac, width)
     if key not in _COMM:
         if D == 2:
             from sopht.numeric.immersed_boundary_ops import EulerianLagrangianGridCommunicator2D as C
         else:
             from sopht.numeric.immersed_boundary_ops import EulerianLagrangianGridCommunicator3D as C
-        _COMM[key] = C(dx=real_t(h), eul_grid_coord_shift=real_t(sfrac * h), num_lag_nodes=N, interp_kernel_width=2,
+        _COMM[key] = C(dx=real_t(h), eul_grid_coord_shift=real_t(sfrac * h), num_lag_nodes=N, interp_kernel_width=width,
                        real_t=real_t, n_components=ncomp, interp_kernel_type=kind)
     return _COMM[key]
 
 
-def support_and_weights(c, pos, D, real_t):
+def support_and_weights(c, pos, D, real_t, width=2):
     N = pos.shape[1]
     idx = np.empty((D, N), dtype=int)
-    sup = np.empty((D,) + (4,) * D + (N,), dtype=real_t)
-    w = np.empty((4,) * D + (N,), dtype=real_t)
+    sup = np.empty((D,) + (2 * width,) * D + (N,), dtype=real_t)
+    w = np.empty((2 * width,) * D + (N,), dtype=real_t)
     c.local_eulerian_grid_support_of_lagrangian_grid_kernel(
         local_eul_grid_support_of_lag_grid=sup, nearest_eul_grid_index_to_lag_grid=idx, lag_positions=pos)
     c.interpolation_weights_kernel(interp_weights=w, local_eul_grid_support_of_lag_grid=sup)
